@@ -7,3 +7,8 @@ func VerifC11SendBurst(ids []uint16, ports []int) (available bool) { return fals
 
 // VerifC11FlushStaged: no batched sender on this platform.
 func VerifC11FlushStaged(ids []uint16, ports []int) (stillStaged int, available bool) { return 0, false }
+
+// VerifC11ServeInline: no inline path on this platform.
+func VerifC11ServeInline(wrote, handoff, panics, replayWrote bool) (staged, replays, releases int, available bool) {
+	return 0, 0, 0, false
+}
